@@ -459,7 +459,8 @@ def _colr0_layers(color_glyph: ColorGlyph, root: Paint, palette: Sequence[Color]
     # Results for complex structures will be suboptimal :)
     ufo = color_glyph.ufo
     layers = []
-    for context in root.breadth_first():
+    # depth first so layers stay in z-order even when reuse wraps a PaintGlyph in a transform
+    for context in root.depth_first():
         if context.paint.format != PaintGlyph.format:  # pytype: disable=attribute-error
             continue
         paint_glyph: PaintGlyph = (
